@@ -12,6 +12,7 @@ import (
 
 	remoteexecution "github.com/bazelbuild/remote-apis/build/bazel/remote/execution/v2"
 	"github.com/buildbarn/bb-remote-execution/pkg/builder"
+	"github.com/buildbarn/bb-remote-execution/pkg/filesystem/pool"
 	"github.com/buildbarn/bb-remote-execution/pkg/filesystem/virtual"
 	"github.com/buildbarn/bb-remote-execution/pkg/proto/remoteworker"
 	runner_pb "github.com/buildbarn/bb-remote-execution/pkg/proto/runner"
@@ -20,6 +21,7 @@ import (
 	"github.com/buildbarn/bb-storage/pkg/filesystem/path"
 	"google.golang.org/grpc"
 	"google.golang.org/grpc/codes"
+	"google.golang.org/grpc/status"
 	"google.golang.org/protobuf/types/known/durationpb"
 	"google.golang.org/protobuf/types/known/emptypb"
 	"pgregory.net/rapid"
@@ -87,6 +89,13 @@ type execRig interface {
 	// creates stdout/stderr like a runner does.
 	runAction(want *node, stdout, stderr string) error
 	buildDirectoryEntries() ([]string, error)
+	// filePool is what Execute hands to InstallHooks.
+	filePool() pool.FilePool
+	// ioError makes the build directory report a fatal I/O error through
+	// the error logger it got with InstallHooks, the way a failing file
+	// pool or a lazily loaded input that is missing does while the
+	// command runs. False if this kind of build directory has no hooks.
+	ioError() bool
 	close()
 }
 
@@ -111,15 +120,23 @@ func (m *memRig) runAction(want *node, stdout, stderr string) error {
 }
 func (m *memRig) buildDirectoryEntries() ([]string, error) { return m.bd.sortedNames(), nil }
 func (m *memRig) close()                                   {}
+func (m *memRig) filePool() pool.FilePool                  { return memPool{} }
+func (m *memRig) ioError() bool {
+	if m.fs.errorLogger == nil {
+		return false
+	}
+	m.fs.errorLogger.Log(status.Error(codes.Internal, "simulated disk failure below the build directory"))
+	return true
+}
 
 type naiveRig struct {
 	cas  *fakeCAS
 	path string
-	open []builder.BuildDirectory
+	rw   *rewriter
 }
 
 func (n *naiveRig) buildDirectory() (builder.BuildDirectory, error) {
-	return newNaiveDirectory(n.path, n.cas)
+	return newNaiveDirectory(n.path, n.cas, n.rw)
 }
 func (n *naiveRig) inputRoot() (*node, error) {
 	p := filepath.Join(n.path, "root")
@@ -129,6 +146,7 @@ func (n *naiveRig) inputRoot() (*node, error) {
 	return readTree(p)
 }
 func (n *naiveRig) runAction(want *node, stdout, stderr string) error {
+	n.rw.set("root/", volatilePaths(want))
 	if err := rematerialise(filepath.Join(n.path, "root"), want); err != nil {
 		return err
 	}
@@ -149,7 +167,9 @@ func (n *naiveRig) buildDirectoryEntries() ([]string, error) {
 	sort.Strings(out)
 	return out, nil
 }
-func (n *naiveRig) close() { os.RemoveAll(n.path) }
+func (n *naiveRig) close()                  { os.RemoveAll(n.path) }
+func (n *naiveRig) filePool() pool.FilePool { return memPool{} }
+func (n *naiveRig) ioError() bool           { return false } // the naive build directory ignores the hooks
 
 // storeTree uploads n as REv2 Directory messages (special files cannot
 // be part of an input root and are dropped by the caller beforehand).
@@ -182,7 +202,7 @@ func dropSpecials(n *node) {
 	}
 }
 
-const executorRule = "rapid: same command and tree generators as hierarchy_model, driven through the real LocalBuildExecutor.Execute with hand-written fakes (build directory creator, runner, clock, CAS holding Action/Command/input root); the fake runner inspects the input root at the moment it is invoked and then performs the drawn action. Oracle: escaping working directory or output path => response status INVALID_ARGUMENT, runner never invoked, input root holds exactly the declared input contents, no outputs reported; otherwise when the runner is invoked every dirname chain exists and nothing else was added to the input root, and the response's ActionResult equals the model (same comparison as hierarchy_model). NON-TRIVIAL: rejected-with-inputs-present, or accepted with a '.', '..' or alias path AND (>= 2 parent directories created before the run OR an output directory with a repeated identical subdirectory); distinct by script hash"
+const executorRule = "rapid: same command and tree generators as hierarchy_model, driven through the real LocalBuildExecutor.Execute with hand-written fakes (build directory creator, runner, clock, CAS holding Action/Command/input root); the fake runner inspects the input root at the moment it is invoked and then performs the drawn action; in 1 case in 5 it then makes the build directory report a fatal I/O error through the logger installed with InstallHooks (mem: direct; virtual: a failing file-pool write) and either returns normally or as killed; the fake CAS refuses Put/Get on a context that is done; on the naive rig 1 non-empty file in 6 is rewritten in place between the digest pass and the upload pass. Oracle: escaping working directory or output path => response status INVALID_ARGUMENT, runner never invoked, input root holds exactly the declared input contents, no outputs reported; otherwise when the runner is invoked every dirname chain exists and nothing else was added to the input root, and the response's ActionResult equals the model (same comparison as hierarchy_model) -- also after an I/O error during the run: outputs that exist are still uploaded and listed. NON-TRIVIAL: rejected-with-inputs-present, or accepted with a '.', '..' or alias path AND (>= 2 parent directories created before the run OR an output directory with a repeated identical subdirectory); distinct by script hash"
 
 func TestC10LocalBuildExecutor(t *testing.T) {
 	rec := simkit.NewRecorder(t, "C10", "local_build_executor", executorRule)
@@ -202,13 +222,14 @@ func TestC10LocalBuildExecutorNaive(t *testing.T) {
 			if err != nil {
 				return nil, err
 			}
-			return &naiveRig{cas: c, path: p}, nil
+			return &naiveRig{cas: c, path: p, rw: &rewriter{}}, nil
 		})
 	})
 }
 
 type virtualRig struct {
-	w *virtualWorld
+	w    *virtualWorld
+	pool *faultyPool
 }
 
 func (v *virtualRig) buildDirectory() (builder.BuildDirectory, error) { return v.w.bd, nil }
@@ -245,12 +266,29 @@ func (v *virtualRig) runAction(want *node, stdout, stderr string) error {
 }
 func (v *virtualRig) buildDirectoryEntries() ([]string, error) { return nil, nil }
 func (v *virtualRig) close()                                   {}
+func (v *virtualRig) filePool() pool.FilePool                  { return v.pool }
+
+// ioError: the file pool behind the build directory fails a write, which
+// the pool-backed file reports through the installed error logger.
+func (v *virtualRig) ioError() bool {
+	v.pool.failWrites = true
+	defer func() { v.pool.failWrites = false }()
+	var out virtual.Attributes
+	share := virtual.ShareMaskRead | virtual.ShareMaskWrite
+	leaf, _, _, s := v.w.top.VirtualOpenChild(vctx, vcomp("io_error_probe"), share, (&virtual.Attributes{}).SetPermissions(virtual.PermissionsRead|virtual.PermissionsWrite), nil, 0, &out)
+	if s != virtual.StatusOK {
+		return false
+	}
+	_, s = leaf.VirtualWrite(vctx, []byte("x"), 0)
+	leaf.VirtualClose(share)
+	return s == virtual.StatusErrIO
+}
 
 func TestC10LocalBuildExecutorVirtual(t *testing.T) {
 	rec := simkit.NewRecorder(t, "C10", "local_build_executor_virtual", "as local_build_executor, but the build directory is the real builder.NewVirtualBuildDirectory over virtual.NewInMemoryPrepopulatedDirectory (CAS-backed lazily loaded input root, pool-backed output files); the fake runner reads and writes it through the Virtual* calls of a FUSE/NFS front end; covers virtual_build_directory.go Lstat/Readlink/UploadFile/Mkdir/MergeDirectoryContents. "+executorRule)
 	rapid.Check(t, func(rt *rapid.T) {
 		runExecutorCase(rt, rec, "virtual", func(c *fakeCAS) (execRig, error) {
-			return &virtualRig{w: newVirtualWorld(c)}, nil
+			return &virtualRig{w: newVirtualWorld(c), pool: &faultyPool{}}, nil
 		})
 	})
 }
@@ -271,6 +309,11 @@ func runExecutorCase(rt *rapid.T, rec *simkit.Recorder, backend string, newRig f
 	sc.Initial = initial.render()
 	exitCode := rapid.SampledFrom([]int{0, 0, 0, 1, 137}).Draw(rt, "exit_code")
 	stdout := rapid.SampledFrom([]string{"", "", "out\n"}).Draw(rt, "stdout")
+	// An I/O error reported by the build directory while the command runs,
+	// after it produced its outputs; the runner is then killed (returns an
+	// error) or happens to finish first.
+	wantIOError := rapid.IntRange(0, 4).Draw(rt, "io_error_during_run") == 0
+	runnerKilled := rapid.Bool().Draw(rt, "runner_killed_by_io_error")
 
 	commandDigest := cas.putProto(ci.command())
 	action := &remoteexecution.Action{
@@ -289,7 +332,7 @@ func runExecutorCase(rt *rapid.T, rec *simkit.Recorder, backend string, newRig f
 
 	var atRun *node // input root when the runner was invoked
 	var produced *node
-	var clobbered bool
+	var clobbered, rewritten, ioErrorReported, runnerFailed bool
 	var runFailure string
 	runner := &fakeRunner{}
 	runner.onRun = func(req *runner_pb.RunRequest) (*runner_pb.RunResponse, error) {
@@ -305,21 +348,36 @@ func runExecutorCase(rt *rapid.T, rec *simkit.Recorder, backend string, newRig f
 		produced = cur
 		if rc.valid {
 			clobbered = drawAction(rt, produced, &rc)
+			if backend == "naive" {
+				rewritten = drawVolatile(rt, produced) > 0
+			}
 		}
 		if err := rig.runAction(produced, stdout, ""); err != nil {
 			runFailure = fmt.Sprintf("VERIF-INCONCLUSIVE harness: cannot perform the action: %v", err)
 			return nil, fmt.Errorf("harness failure")
+		}
+		if wantIOError && rig.ioError() {
+			ioErrorReported = true
+			if runnerKilled {
+				runnerFailed = true
+				return nil, status.Error(codes.Canceled, "context canceled")
+			}
 		}
 		return &runner_pb.RunResponse{ExitCode: int64(exitCode)}, nil
 	}
 	creator := &fakeCreator{get: rig.buildDirectory}
 	executor := builder.NewLocalBuildExecutor(cas, creator, runner, fakeClock{}, time.Minute, nil, 1<<20, map[string]string{"PATH": "/bin"}, ci.force)
 	updates := make(chan *remoteworker.CurrentState_Executing, 16)
-	response := executor.Execute(context.Background(), memPool{}, nil, digestFunction, &remoteworker.DesiredState_Executing{
+	response := executor.Execute(context.Background(), rig.filePool(), nil, digestFunction, &remoteworker.DesiredState_Executing{
 		ActionDigest: actionDigest,
 		Action:       action,
 	}, updates)
 
+
+	if produced != nil {
+		sc.Produced = produced.render()
+	}
+	sc.IOError = ioErrorReported
 	if runFailure != "" {
 		rt.Fatalf("%s; script=%+v", runFailure, sc)
 	}
@@ -436,13 +494,22 @@ func runExecutorCase(rt *rapid.T, rec *simkit.Recorder, backend string, newRig f
 		rt.Fatalf("uploading outputs modified the input root: now %v; script=%+v", final.render(), sc)
 	}
 	uf, errAllowed := describeOutputs(&ci, &rc, produced)
+	if ioErrorReported {
+		// The response carries the I/O error; the outputs that exist must
+		// still be uploaded and listed (the upload phase deliberately does
+		// not run on the context that the I/O error cancels).
+		errAllowed = true
+		if code == codes.OK {
+			rt.Fatalf("the build directory reported an I/O error while the command ran, but the response status is OK; script=%+v", sc)
+		}
+	}
 	if code != codes.OK && !errAllowed {
 		rt.Fatalf("response status %s %q although every declared output is a file, directory, symlink or absent; script=%+v", code, response.GetStatus().GetMessage(), sc)
 	}
 	if len(cas.corrupt) > 0 {
 		rt.Fatalf("blobs were stored under digests that do not match their contents: %v; script=%+v", cas.corrupt, sc)
 	}
-	if int(ar.ExitCode) != exitCode {
+	if !runnerFailed && int(ar.ExitCode) != exitCode {
 		rt.Fatalf("exit code %d reported, runner returned %d; script=%+v", ar.ExitCode, exitCode, sc)
 	}
 	requireRDD := ci.format == remoteexecution.Command_DIRECTORY_ONLY || ci.format == remoteexecution.Command_TREE_AND_DIRECTORY
@@ -461,6 +528,19 @@ func runExecutorCase(rt *rapid.T, rec *simkit.Recorder, backend string, newRig f
 	if exitCode != 0 {
 		labels = append(labels, "nonzero_exit_code")
 	}
+	if ioErrorReported {
+		labels = append(labels, "io_error_reported_during_run")
+		if uf.outFiles+uf.outDirs > 0 {
+			labels = append(labels, "io_error_with_outputs_to_upload")
+		}
+	}
+	if runnerFailed {
+		labels = append(labels, "runner_killed_by_io_error")
+	}
+	if rewritten {
+		labels = append(labels, "file_rewritten_during_upload")
+	}
+
 	sc.Outcome = "accepted"
 	nontrivial := (facts.dot || facts.dotdot || facts.alias) && (len(added) >= 2 || uf.repeated)
 	rec.Case(sc, nontrivial, labels...)
